@@ -11,7 +11,7 @@ RULE = ("Hypothesis-generated histories on one graph object: a non-empty graph (
         "vertices, attribute-carrying edges, arbitrary node labels) followed by a sequence of percolate(phi) calls "
         "(phi in {0,1} or generated) interleaved with count-preserving in-place rewirings; seeded RNG. Exact oracles at "
         "phi in {0,1}, lattice/bounds and untouched input for all phi. Plus seeded chi-square tests of the "
-        "Binomial(M,phi) law on stars (M in 1..12, phi in {0.05,0.08,0.2,0.35,0.7,0.93}). Non-trivial = graph with >= 3 edges and some "
+        "Binomial(M,phi) law on stars (M in 1..12, phi in {0.05,0.08,0.2,0.35,0.7,0.93}). Graphs may carry self-loops, parallel edges (multigraphs), integer names -1..n-1 with a gap; stars with loops / double bonds and two disjoint stars in the statistical family. Non-trivial = graphNon-trivial = graph with >= 3 edges and some "
         "call with 0<phi<1; distinct = canonical JSON")
 ASSUMPTIONS = ["law clause decided statistically (p<1e-9) on 4000 (quick) / 40000 seeded runs per star"]
 BUDGET = {"quick": (16, 300), "thorough": (16, 12000)}
@@ -34,7 +34,7 @@ def graph_case(draw, tier):
         edges = [(i, j) for i in range(k) for j in range(i + 1, k)]
     else:
         edges = draw(st.lists(st.sampled_from(pairs), max_size=min(len(pairs), 20), unique=True)) if pairs else []
-    labels = draw(st.sampled_from(["int", "offset", "str"]))
+    labels = draw(st.sampled_from(["int", "offset", "str", "wrap"]))
     attrs = draw(st.booleans())
     ops = draw(st.lists(st.one_of(
         st.tuples(st.just("perc"), st.sampled_from([0.0, 1.0, 1.0, 0.5, 0.3, 0.9])),
@@ -66,6 +66,9 @@ def enumerated(tier, seed):
     # the same law on stars that carry a self-loop on every vertex
     for i, (M, phi) in enumerate([(3, 0.5), (6, 0.3)]):
         out.append({"stat": True, "M": M, "phi": phi, "T": T, "seed": seed * 100 + 50 + i, "loops": True})
+    # two disjoint stars: N*S - 1 is the larger of two independent Binomials (the largest cluster of the WHOLE graph)
+    for i, (M1, M2, phi) in enumerate([(5, 4, 0.5), (6, 6, 0.3)]):
+        out.append({"stat": True, "two_stars": [M1, M2], "M": M1, "phi": phi, "T": T, "seed": seed * 100 + 70 + i})
     # and on multigraph stars whose leaves hang on double bonds
     for i, (M, phi) in enumerate([(4, 0.3), (7, 0.5)]):
         out.append({"stat": True, "M": M, "phi": phi, "T": T, "seed": seed * 100 + 60 + i, "double": True})
@@ -126,6 +129,24 @@ def check(case):
                 raise Violation("binomial-law-large", f"star with {M} leaves, phi={phi}: mean retained leaves {mean:.1f} over {T} runs, "
                                                       f"Binomial mean {M * phi:.1f} (z = {z:.1f})")
             return {"nontrivial": True, "classes": ["statistical", "large_star"], "notes": {"z_large_star": abs(z)}}
+        if case.get("two_stars"):
+            M1, M2 = case["two_stars"]
+            G = nx.disjoint_union(nx.star_graph(M1), nx.star_graph(M2))
+            N = M1 + M2 + 2
+            cnt = [0] * (max(M1, M2) + 1)
+            with rng.seeded(case["seed"]):
+                for _ in range(T):
+                    k = call("percolate", bond_percolate, G, phi) * N - 1
+                    if abs(k - round(k)) > 1e-6 or not 0 <= round(k) <= max(M1, M2):
+                        raise Violation("lattice", f"two stars {M1},{M2}: N*S-1 = {k}")
+                    cnt[round(k)] += 1
+            cdf = lambda M_, k_: sum(stats.binom_pmf(j, M_, phi) for j in range(0, min(k_, M_) + 1)) if k_ >= 0 else 0.0
+            exp = [T * (cdf(M1, k) * cdf(M2, k) - cdf(M1, k - 1) * cdf(M2, k - 1)) for k in range(max(M1, M2) + 1)]
+            s, df, p = stats.chi2_test(cnt, exp)
+            if p < stats.ALPHA:
+                raise Violation("binomial-law", f"two disjoint stars with {M1} and {M2} leaves, phi={phi}: largest-cluster counts {cnt} vs "
+                                                f"max of two Binomials {[round(e, 1) for e in exp]}: chi2={s:.1f} df={df} p={p:.3g}")
+            return {"nontrivial": True, "classes": ["statistical", "disconnected_input"], "notes": {"p_two_stars": p}}
         G = nx.star_graph(M)
         if case.get("loops"):
             G.add_edges_from((v, v) for v in G.nodes())
@@ -149,7 +170,9 @@ def check(case):
                                             f"expectation {[round(e, 1) for e in exp]}: chi2={s:.1f} df={df} p={p:.3g}")
         return {"nontrivial": True, "classes": ["statistical"] + (["self_loops"] if case.get("loops") else []), "notes": {"p_binomial": p}}
     n = case["n"]
-    lab = {"int": lambda i: i, "offset": lambda i: 10 * i + 7, "str": lambda i: f"v{i}"}[case["labels"]]
+    # "wrap": integer names -1, 0, 1, .., n-3, n-1 -- all below n, not contiguous, and -1 + n is a name as well
+    lab = {"int": lambda i: i, "offset": lambda i: 10 * i + 7, "str": lambda i: f"v{i}",
+           "wrap": lambda i: (i - 1 if i < n - 1 else n - 1) if n >= 3 else i}[case["labels"]]
     G = nx.MultiGraph() if case.get("multi") else nx.Graph()
     if not case.get("edges_first"):
         for i in range(n):
